@@ -21,6 +21,10 @@ from vlib.replay import generic_replay
 LEVEL = 'exploration'
 
 TABLE_LIMIT = 16
+Z3_TIMEOUT_MS = 240000
+# instances whose equivalence query is too slow for the quick tier (measured), resp. for any tier
+SLOW_QUICK = {'count-12-3', 'count-10-4', 'php-40-30-5', 'bphp-33-32', 'bphp-20-17', 'subsetcard-20-6---equal'}
+SLOW_ALWAYS = {'count-15-3', 'randkcnf-3-2000-8000', 'php-100-40'}
 
 
 def _classes():
@@ -94,8 +98,10 @@ def eval_pair(entry, via, seed=0):
             cl, pb = [], None
             return out
         cl = rows_a
-        diff = xf.z3_equivalent(n, cl, pb)
-        if diff is not None:
+        diff = xf.z3_equivalent(n, cl, pb, timeout_ms=Z3_TIMEOUT_MS)
+        if diff == 'unknown':
+            out.append(('skipped', 'z3 undecided within {} ms on {} variables'.format(Z3_TIMEOUT_MS, n)))
+        elif diff is not None:
             out.append(('models', 'z3: assignment {} satisfies exactly one of the two renderings'.format(
                 {la[v - 1]: x for v, x in list(diff.items())[:30]})))
     return out
@@ -123,7 +129,8 @@ def bounded_pairs(ctx):
     thorough = ctx.tier == 'thorough'
     small = xf.small_entries(thorough)
     real = [e for e in xf.real_entries(thorough) if (e['nvars'] or 0) <= (1300 if thorough else 250)
-            and e['family'] not in ('pitfall',) and not (e['family'] == 'php' and not thorough)]
+            and e['id'] not in SLOW_ALWAYS and (thorough or e['id'] not in SLOW_QUICK)
+            and not (e['family'] in ('php', 'pitfall') and not thorough)]
     tasks = []
     for e in small:
         if e['lib'][0] is not None:
